@@ -52,6 +52,29 @@ def operand_cells():
                 out.append((f'augop:{a}{op}{b}:field@method', g,
                             pre + f'class AugBox(def fa: {decl[a]})\n    def bump(self, vb: {decl[b]}) -> Int =>\n        self.fa {op} vb\n        0\n\n'
                             f'def ab := AugBox({OPERAND_VALUES[a]})\nprint(ab.bump({OPERAND_VALUES[b]}))\n'))
+    # operations on collections x collection (and non-collection) types: the property names lists, sets and tuples explicitly
+    COLL = {'List': ('List[Int]', '[1, 2, 3]'), 'Set': ('Set[Int]', '{1, 2, 3}'), 'Tuple': ('(Int, Int)', '(1, 2)'), 'Dict': (None, '{1 => 2, 3 => 4}'), 'Str': ('Str', '"abc"'),
+            'Range': (None, '(0 .. 3)'), 'Int': ('Int', '7'), 'ListStr': ('List[Str]', '["a", "b"]'), 'Nested': ('List[List[Int]]', '[[1], [2, 3]]'), 'Empty': ('List[Int]', '[]')}
+    COLLOPS = {
+        'index': 'print(c[0])', 'index-negative': 'print(c[0 - 1])', 'index-str': 'print(c["k"])', 'index-assign': 'c[0] := 9', 'contains': 'print(1 in c)', 'contains-str': 'print("a" in c)',
+        'concat': 'def d := c + c\nprint("x")', 'repeat': 'def d := c * 2\nprint("x")', 'iterate': 'for e in c do print(e)', 'iterate-sub': 'for e in c do print(e - 1)',
+        'append': 'c.append(4)', 'add': 'c.add(4)', 'push-nonexistent': 'c.push(4)', 'builder': 'def d := [e | e in c]\nprint("x")', 'builder-arith': 'def d := [e * 2 | e in c]\nprint("x")',
+        'set-builder-cond': 'def d := {e | e in c, e > 1}\nprint("x")', 'slice': 'def d := c[0 :: 2]\nprint("x")', 'unpack-2': 'def (p, q) := c\nprint("x")', 'unpack-3': 'def (p, q, r) := c\nprint("x")',
+        'equal': 'print(c = c)', 'less': 'print(c < c)', 'print': 'print(c)', 'interpolate': 'print("{c}")', 'index-of-index': 'print(c[0][0])', 'sum-elements': 'def t: Int := c[0] + c[1]\nprint(t)',
+        'element-into-int': 'def t: Int := c[0]\nprint(t)', 'element-into-str': 'def t: Str := c[0]\nprint(t)', 'call-as-function': 'print(c(0))',
+        'plus-int': 'def d := c + 1\nprint("x")', 'field': 'print(c.first)', 'sqrt': 'def d: Float := sqrt c\nprint(d)',
+    }
+    for cn, (ann, val) in COLL.items():
+        for on, op in COLLOPS.items():
+            if (on, cn) == ('plus-int', 'Str'):
+                continue        # `"s" + 1` is the Str stub finding of the binary operator sweep
+            for form in ('inferred', 'annotated'):
+                if form == 'annotated' and ann is None:
+                    continue
+                body = (f'def c: {ann} := {val}' if form == 'annotated' else f'def c := {val}') + '\n' + op + '\nprint("done")\n'
+                out.append((f'collop:{cn}:{on}:{form}@top', f'collop:{on}:{cn}', pre + body))
+                out.append((f'collop:{cn}:{on}:{form}@fun', f'collop:{on}:{cn}',
+                            pre + 'def wrapf() -> Int =>\n' + ''.join('    ' + l + '\n' for l in body.strip().split('\n')) + '    0\nprint(wrapf())\n'))
     # method / field on the wrong class, renamed uses
     extra = {
         'method-of-other-class': 'class Other(def oz: Str)\n    def name(self) -> Str => self.oz\ndef b := Base(1)\nprint(b.name())\n',
